@@ -180,6 +180,17 @@ pub(crate) fn run(seed: u64, n: u64, out: &mut Out) {
             let f_cap = if with_filter { match rng.below(5) { 0 => Some([0u64, 1000]), 1 => Some([1000, 6_100_000_001]), 2 => Some([0u64, 0]), 3 => Some([0u64, 1]), _ => None } } else { None };
             // block ranges often: with a prefix search over several scripts the keys are NOT ordered by block number
             let f_block = if with_filter { match rng.below(3) { 0 => None, 1 => rr(&mut rng, 10), _ => { let a = rng.range(0, 8); Some([a, a + rng.range(1, 6)]) } } } else { None };
+            // single-filter stream: half of the filtered queries carry exactly one of the five filters, so that each filter decides
+            // the answer on its own (with all five drawn independently most answers are empty whatever a filter does)
+            let (f_script, f_len, f_data, f_cap, f_block) = if with_filter && rng.chance(1, 2) {
+                match rng.below(5) {
+                    0 => (f_script, None, None, None, None),
+                    1 => (None, Some(f_len.unwrap_or([if rng.chance(1, 2) { 0 } else { rng.range(0, 40) }, rng.range(0, 47)])), None, None, None),
+                    2 => (None, None, Some(f_data.unwrap_or([rng.range(0, 3), rng.range(0, 10)])), None, None),
+                    3 => (None, None, None, Some(f_cap.unwrap_or([0, 1000])), None),
+                    _ => (None, None, None, None, Some(f_block.unwrap_or([rng.range(0, 5), rng.range(0, 12)]))),
+                }
+            } else { (f_script, f_len, f_data, f_cap, f_block) };
             let tag: u8 = match (kind, is_lock) { (0, true) | (3, true) => 32, (0, false) | (3, false) => 64, (_, true) => 96, (_, false) => 128 };
             let mk_key = |cursor_filter: bool| -> SearchKey {
                 let filter = if with_filter {
